@@ -3,7 +3,7 @@
    handles (ff.bigFiles) and fsFile.Release, as a labelled transition system.  Labels are the code's
    locked regions and the calls made outside the lock:
 
-     request      = Get k h (cache hit)  |  Open sz ; (OpenFail f | Set k f h)       (handleRequest, openFSFile/newFSFile)
+     request      = Get k h (cache hit)  |  Open sz ; (OpenFail f | OpenAbort f | SetF k f h)   (handleRequest, openFSFile/newFSFile)
                     then NewReader h (big files only: pops ff.bigFiles or opens a new handle) ; Read h * ; Dec h
                     or Dec h at once (If-Modified-Since hit, NewReader error, HEAD)
      cleaner      = CleanTick exp ; Release f *        (cleanCache under the lock, Release outside)
@@ -55,6 +55,7 @@ Record st := mkSt {
 Inductive label :=
 | Open (sz : Z)
 | OpenFail (f : fid)
+| OpenAbort (f : fid)
 | Get (k : key) (h : hid)
 | SetF (k : key) (f : fid) (h : hid)
 | NewReader (h : hid)
@@ -134,6 +135,12 @@ Definition step (cf : cfg) (s : st) (l : label) : option st :=
       if memb f (local s) then
         Some (mkSt (cache s) (pending s) (closeStarted s) (closed s) (closer s) (rc s) (released s) (fsize s)
                    (remove1 f (local s)) (f :: leaked s) (floating s) (relq s) (holders s) (pool s) (bclosed s) (dclosed s)
+                   (bowner s) (nextf s) (nextb s) (badreads s))
+      else None
+  | OpenAbort f =>        (* the error paths of openFSFile that do close the file they opened *)
+      if memb f (local s) then
+        Some (mkSt (cache s) (pending s) (closeStarted s) (closed s) (closer s) (rc s) (upd (released s) f (S (released s f)))
+                   (fsize s) (remove1 f (local s)) (leaked s) (floating s) (relq s) (holders s) (pool s) (bclosed s) (dclosed s)
                    (bowner s) (nextf s) (nextb s) (badreads s))
       else None
   | Get k h =>
